@@ -498,6 +498,26 @@ End WithConfig.
 
 Definition init : state := mkSt ClOpen 0 [] [] [] [] [] false.
 
+(* ---- candidate non-environment steps (used by the driver's scheduler and to decide
+   stuckness: a reaction-independent representative of every progress label) ---- *)
+Definition progress_labels (s : state) : list label :=
+  flat_map (fun p => [Get p; SenderExit p; Attempt p AppliedAcked; BackoffDone p; Finish p])
+           (seq 0 (length (s_pws s)))
+  ++ flat_map (fun ppw => map (Timer (fst ppw)) (pw_await (snd ppw)))
+              (combine (seq 0 (length (s_pws s))) (s_pws s))
+  ++ flat_map (fun c => [Assign c; Return c]) (seq 0 (length (s_calls s)))
+  ++ [CloseWaitDone].
+
+(* Close waits and nothing but the environment can move *)
+Definition stuck (cfg : config) (s : state) : Prop :=
+  s_close s = ClWaiting /\ forall l, is_env l = false -> step cfg s l = None.
+
+Definition stuckb (cfg : config) (s : state) : bool :=
+  match s_close s with
+  | ClWaiting => forallb (fun l => is_none (step cfg s l)) (progress_labels s)
+  | _ => false
+  end.
+
 (* the log of one topic-partition *)
 Definition log_of (s : state) (tp : tpart) : list msg :=
   map snd (filter (fun e => tp_eqb (fst e) tp) (s_log s)).
@@ -607,8 +627,6 @@ Definition C01_compl_holds (cs : list call) (j : list attempt) (compl : list (li
                         end) cs).
 
 (* at quiescence (after Close returned) every accepted message was completed *)
-Definition accepted (c : call) : bool :=
-  negb (rejected c) && match c_ph c with CReturned RNil => negb (match c_msgs c with [] => true | _ => false end) || true | _ => true end.
 Definition C01_compl_total_holds (cs : list call) (compl : list (list msg * option err)) : bool :=
   forallb (fun c => rejected c
                     || forallb (fun m => match compl_of compl m with [_] => true | _ => false end) (c_msgs c)) cs.
@@ -685,3 +703,7 @@ Definition C07_holds (cs : list call) (j : list attempt) : bool :=
   forallb (fun c => forallb (fun m => C07_holds_for cs j (c_g c) (tp_of cfg m)) (c_msgs c)) cs.
 
 End Hist.
+
+(* Message.totalSize() of a message without headers: 4 (crc) + 1 + 1 + sizeofBytes(key) +
+   sizeofBytes(value) + 8 (timestamp) + varArrayLen(0) = 1 *)
+Definition total_size_nohdr (klen vlen : N) : N := (4 + 1 + 1 + (4 + klen) + (4 + vlen) + 8 + 1)%N.
